@@ -1,6 +1,7 @@
 import CssVerif.Lemmas.Tok
 import CssVerif.Lemmas.TokLex
 import CssVerif.Lemmas.TokDet
+import CssVerif.Lemmas.TokAppend
 /-!
 # C05 — tokenizer: total, lossless, position-accurate, classifies by the grammar
 
@@ -346,6 +347,77 @@ example : (tokenize [97, 98, 32, 123, 32, 49, 50, 32, 125] false true).tokens.ma
 example : expected [Lex.pct 53 [48], .dim 49 [] 112 [120], .hash 102 [48, 48]] =
     [("PERCENTAGE", [53, 48, 37]), ("S", [32]), ("DIMENSION", [49, 112, 120]), ("S", [32]),
      ("HASH", [35, 102, 48, 48])] := by decide
+
+/-! ## T5.7 locality: a match never depends on what follows its end; append and cut
+
+`tokensAt doC s line col` = the items of the loop on the text fragment `s` in partial-sheet mode, started at
+`line`/`col` (`tokenize_is_tokensAt`: this is `tokenize` for a text that starts neither with the BOM production nor with
+`@charset `); `endAt doC s line col` = how that run stops (`endAt_regular`: always `.done line' col'`). -/
+
+/-- **locality of the regular expressions**: for a pattern without `$`, the successes on `s ++ b` that end inside `s`
+are exactly the successes on `s`, in the same (backtracking) order -/
+theorem re_locality (r : Re) (h : eolFree r = true) (s b : Cps) :
+    (r.ms (s ++ b)).filter (fun l => decide (l ≤ s.length)) = r.ms s :=
+  ms_local r h s b
+
+/-- … and no generated production contains `$` -/
+theorem productions_local : ∀ p ∈ productions, eolFree p.2 = true := productions_eolFree
+
+theorem tokenize_is_tokensAt (doC : Bool) (s : Cps) (hb : bomRe.first s = none)
+    (hc : hasAt s charsetStart = false) : (tokenize s false doC).items = tokensAt doC s 1 1 :=
+  tokenize_plain doC s hb hc
+
+theorem endAt_regular (doC : Bool) (s : Cps) (line col : Nat) : ∃ l' c', endAt doC s line col = .done l' c' :=
+  endAt_done doC s line col
+
+/-- **T5.7 tokenize_append**: when a token boundary of `a ++ b` falls at `|a|` (the items split into `pre ++ post`
+with `pre` covering exactly `a`), then `pre` is the tokenization of `a` alone and `post` is the tokenization of `b`
+started at the line and column where the run on `a` stopped — for every text, not only for rendered lexemes. -/
+theorem tokenize_append (doC : Bool) (a b : Cps) (line col : Nat) (pre post : List Item)
+    (h : tokensAt doC (a ++ b) line col = pre ++ post) (hs : spans pre = a) :
+    tokensAt doC a line col = pre ∧
+    ∃ line' col', endAt doC a line col = .done line' col' ∧ post = tokensAt doC b line' col' :=
+  tokensAt_append_aux doC a b line col pre post h hs
+
+/-- the same as an equation: tokens of `a ++ b` = tokens of `a` ++ tokens of `b`, positions continued -/
+theorem tokenize_append_eq (doC : Bool) (a b : Cps) (line col : Nat)
+    (h : ∃ pre post, tokensAt doC (a ++ b) line col = pre ++ post ∧ spans pre = a) :
+    ∃ line' col', endAt doC a line col = .done line' col' ∧
+      tokensAt doC (a ++ b) line col = tokensAt doC a line col ++ tokensAt doC b line' col' := by
+  obtain ⟨pre, post, h1, h2⟩ := h
+  obtain ⟨ha, l', c', he, hp⟩ := tokenize_append doC a b line col pre post h1 h2
+  exact ⟨l', c', he, by rw [h1, ha, hp]⟩
+
+/-- where the run on `a` stops is the position of the code point after `a` (lines by LF) -/
+theorem tokenize_append_position (doC : Bool) (a before : Cps) (line col l' c' : Nat) (h : (line, col) = lc before)
+    (hd : endAt doC a line col = .done l' c') : (l', c') = lc (before ++ a) :=
+  endAt_pos doC a before line col l' c' h hd
+
+/-- **T5.7 tokenize_cut** (truncation): cut the text `a₁ ++ a₂ ++ b` after `a₁ ++ a₂`, where `|a₁|` is a token
+boundary of the whole text. The tokens before that boundary are kept exactly (types, values, positions); the rest of
+the cut text, `a₂`, is tokenized from the same line and column as `a₂ ++ b` was. So a cut changes nothing before the
+last token boundary that precedes it. -/
+theorem tokenize_cut (doC : Bool) (a₁ a₂ b : Cps) (line col : Nat) (pre post : List Item)
+    (h : tokensAt doC (a₁ ++ a₂ ++ b) line col = pre ++ post) (hs : spans pre = a₁) :
+    ∃ line' col', tokensAt doC (a₁ ++ a₂) line col = pre ++ tokensAt doC a₂ line' col' ∧
+      post = tokensAt doC (a₂ ++ b) line' col' :=
+  tokensAt_cut doC a₁ a₂ b line col pre post h hs
+
+/-- the hypothesis is satisfiable: `a ` + `b` -/
+example : tokensAt true ([97, 32] ++ [98]) 1 1 =
+    [⟨"IDENT", [97], 1, 1, [97], [97], true⟩, ⟨"S", [32], 1, 2, [32], [32], true⟩] ++
+      [⟨"IDENT", [98], 1, 3, [98], [98], true⟩] ∧
+    spans [⟨"IDENT", [97], 1, 1, [97], [97], true⟩, (⟨"S", [32], 1, 2, [32], [32], true⟩ : Item)] = [97, 32] := by
+  constructor
+  · decide +kernel
+  · decide
+
+/-- … and it is needed: `a` + `b` is one IDENT `ab`, `url(` + `x)` one URI, `/*` + `*/` one COMMENT -/
+example : (tokensAt true ([97] ++ [98]) 1 1).map proj = [("IDENT", [97, 98])] ∧
+    (tokensAt true ([117, 114, 108, 40] ++ [120, 41]) 1 1).map proj = [("URI", [117, 114, 108, 40, 120, 41])] ∧
+    (tokensAt true [117, 114, 108, 40] 1 1).map proj = [("FUNCTION", [117, 114, 108, 40])] ∧
+    (tokensAt true ([47, 42] ++ [42, 47]) 1 1).map proj = [("COMMENT", [47, 42, 42, 47])] := by
+  refine ⟨by decide +kernel, by decide +kernel, by decide +kernel, by decide +kernel⟩
 
 /-! ## the string productions are matched in one way only (fix ad43c3b)
 
